@@ -1,11 +1,403 @@
+import QmiModel.Lemmas.C09Acct
 import QmiModel.Gen.RecvProg
+set_option linter.unusedSimpArgs false
 /-!
-# C09 — the receiver under every interleaving of deliverer and reader threads (work in progress)
+# C09 — the receiver under every interleaving of deliverer and reader threads
+
+`Model/RecvConc.lean` runs `_receive_signal`, `get_next_signal`, `discard_all`, `get_queue_length`, `has_signal_ready`
+statement by statement for any number of threads (thread ids are unbounded), with readers that are plain threads or task
+threads (stop flag, `_TaskThread.wait_for_condition`), timeouts `None` / `0` / `> 0`, and arbitrary stop requests,
+timer expiries and wake-ups.  The statement lists are generated from the ASTs of pubsub.py / task.py
+(`Gen/RecvProg.lean`); the obligations `gen_*` tie them to the programs `P0` all theorems are about.
+
+All statements quantify over every capacity `≥ 1`, both policies and every schedule (`List Act`), by induction with the
+invariant `FInv` (Lemmas/C09Step, C09Lock, C09Lin, C09Wait, C09Acct).
 -/
 namespace QmiModel.RecvConc
 open QmiModel.RecvQueue
 
-/-- OBLIGATION on the generated programs: they are the programs the theorems below are about -/
+/-- the state reached from a fresh receiver by a schedule -/
+abbrev reach (cap : Nat) (pol : Policy) (sched : List Act) : St := crun P0 (St.init cap pol) sched
+
+/-! ## Obligations on the generated programs -/
+
+/-- OBLIGATION: the generated statement lists are the programs the theorems below are about -/
 theorem gen_progs : Gen.RecvProg.progs = P0 := by decide
+
+/-- OBLIGATION: in `_receive_signal` the sequence number is read and advanced, the queue tested, the signal appended
+and the readers notified, all inside `with self._queue_cond:` -/
+theorem gen_seq_assigned_under_lock :
+    ∀ p ∈ lockedFlags (· == RI.acquire) (· == RI.release) Gen.RecvProg.recv false,
+      p.1 ∈ [RI.mkSig, RI.incSeq, RI.takeSeq, RI.dropIfFullNew, RI.append, RI.notifyAll] → p.2 = true := by decide
+
+/-- OBLIGATION: every arrival reads the counter and advances it, exactly once each, in that order -/
+theorem gen_one_number_per_arrival :
+    Gen.RecvProg.recv.filter (fun x => x == RI.mkSig || x == RI.incSeq || x == RI.takeSeq) = [RI.mkSig, RI.incSeq] := by decide
+
+/-- OBLIGATION: `get_next_signal` tests the queue, under the lock, before it calls the wait helper, and skips the
+helper when a signal is queued -/
+theorem gen_get_checks_queue_first : Gen.RecvProg.get.take 4 = [GI.acquire, GI.skipIfNonEmpty 1, GI.wait, GI.pop] := by decide
+
+/-- OBLIGATION: queue test, wait and `popleft` of `get_next_signal` are inside `with self._queue_cond:` -/
+theorem gen_get_under_lock :
+    ∀ p ∈ lockedFlags (· == GI.acquire) (· == GI.release) Gen.RecvProg.get false, p.1 ≠ GI.acquire → p.2 = true := by decide
+
+/-- OBLIGATION (the code as it is): in a task thread the helper waits for `predicate or stop flag` and then gives the stop
+flag priority over the result; in a plain thread it is `cond.wait_for(predicate, timeout)` -/
+theorem gen_wait_helpers :
+    Gen.RecvProg.taskWait = [WI.waitFor true, WI.raiseIfStop, WI.retRet] ∧ Gen.RecvProg.plainWait = [WI.waitFor false, WI.retRet] := by
+  decide
+
+/-! ## The concurrent receiver is the sequential one on its linearisation -/
+
+/-- **refinement**: in every reachable state the shared state (an arrival whose number is taken but which is not yet
+queued or dropped counted as not yet happened) equals the sequential model run over the calls in the order they took
+effect -/
+theorem lin_refines (cap : Nat) (pol : Policy) (hcap : 1 ≤ cap) (sched : List Act) :
+    absV (reach cap pol sched).g (holdOf (reach cap pol sched)) = grun (ginit cap pol) (reach cap pol sched).lin :=
+  (FInv_reachable cap pol hcap sched).c.lin.abs_eq
+
+theorem absV_q (g : Ghost) (h : Option Hold) : (absV g h).r.q = g.r.q := by unfold absV; split <;> rfl
+theorem absV_cap (g : Ghost) (h : Option Hold) : (absV g h).r.cap = g.r.cap := by unfold absV; split <;> rfl
+theorem absV_delivered (g : Ghost) (h : Option Hold) : (absV g h).delivered = g.delivered := by unfold absV; split <;> rfl
+theorem absV_dropped (g : Ghost) (h : Option Hold) : (absV g h).dropped = g.dropped := by unfold absV; split <;> rfl
+theorem absV_discarded (g : Ghost) (h : Option Hold) : (absV g h).discarded = g.discarded := by unfold absV; split <;> rfl
+theorem absV_next (g : Ghost) (h : Option Hold) : (absV g h).r.next = g.r.next - (if midH h then 1 else 0) := by
+  unfold absV; split <;> simp [setNext]
+
+/-- the sequential invariant holds of the shared state under every interleaving -/
+theorem conc_seq_inv (cap : Nat) (pol : Policy) (hcap : 1 ≤ cap) (sched : List Act) :
+    Inv (absV (reach cap pol sched).g (holdOf (reach cap pol sched))) :=
+  seqInv_of_RInv hcap (FInv_reachable cap pol hcap sched).c.lin
+
+/-- mutual exclusion: two threads inside their `with self._queue_cond:` blocks (and not parked in `wait`) are the same -/
+theorem critical_sections_exclusive (cap : Nat) (pol : Policy) (hcap : 1 ≤ cap) (sched : List Act) (i j : Nat)
+    (hi : inside ((reach cap pol sched).thr i) = true) (hj : inside ((reach cap pol sched).thr j) = true) : i = j := by
+  have h := (FInv_reachable cap pol hcap sched).c.lk
+  have a := (h.holder i).1 hi
+  have b := (h.holder j).1 hj
+  rw [a] at b; cases b; rfl
+
+/-! ## The property, for all interleavings -/
+
+/-- sequence numbers in the queue strictly increase from head to tail -/
+theorem conc_queue_sorted (cap : Nat) (pol : Policy) (hcap : 1 ≤ cap) (sched : List Act) :
+    ((reach cap pol sched).g.r.q.map Sig.seq).Pairwise (· < ·) := by
+  have := (conc_seq_inv cap pol hcap sched).q_sorted
+  rwa [absV_q] at this
+
+/-- never more than the configured maximum -/
+theorem conc_len_le_cap (cap : Nat) (pol : Policy) (hcap : 1 ≤ cap) (sched : List Act) :
+    (reach cap pol sched).g.r.q.length ≤ cap := by
+  have h := (conc_seq_inv cap pol hcap sched).len_le
+  have e := (FInv_reachable cap pol hcap sched).c.lin.abs_eq
+  rw [absV_q] at h
+  have : (absV (reach cap pol sched).g (holdOf (reach cap pol sched))).r.cap = cap := by rw [e, cap_grun]; rfl
+  rw [this] at h; exact h
+
+/-- the numbers handed out strictly increase in hand-out order, over all readers together -/
+theorem conc_handout_sorted (cap : Nat) (pol : Policy) (hcap : 1 ≤ cap) (sched : List Act) :
+    (reach cap pol sched).g.delivered.Pairwise (· < ·) := by
+  have := (conc_seq_inv cap pol hcap sched).d_sorted
+  rwa [absV_delivered] at this
+
+/-- the numbers one reader sees strictly increase, and they are among the numbers handed out -/
+theorem conc_reader_sorted (cap : Nat) (pol : Policy) (hcap : 1 ≤ cap) (sched : List Act) (i : Nat) :
+    ((reach cap pol sched).thr i).got.Pairwise (· < ·) ∧
+      ∀ x ∈ ((reach cap pol sched).thr i).got, x ∈ (reach cap pol sched).g.delivered :=
+  ⟨((FInv_reachable cap pol hcap sched).g i).sorted, ((FInv_reachable cap pol hcap sched).g i).sub⟩
+
+/-- everything handed out is older than everything still queued: readers get the oldest first -/
+theorem conc_oldest_first (cap : Nat) (pol : Policy) (hcap : 1 ≤ cap) (sched : List Act) :
+    ∀ d ∈ (reach cap pol sched).g.delivered, ∀ x ∈ (reach cap pol sched).g.r.q, d < x.seq := by
+  have := (conc_seq_inv cap pol hcap sched).d_lt_q
+  rwa [absV_delivered, absV_q] at this
+
+/-- every number consumed so far is in exactly one of handed out / dropped / discarded / still queued (an arrival that
+has taken its number but is not yet queued or dropped is not counted yet) -/
+theorem conc_accounting (cap : Nat) (pol : Policy) (hcap : 1 ≤ cap) (sched : List Act) :
+    let s := reach cap pol sched
+    (s.g.delivered ++ s.g.dropped ++ s.g.discarded ++ s.g.r.q.map Sig.seq).Perm
+      (List.range (s.g.r.next - (if midH (holdOf s) then 1 else 0))) := by
+  have := (conc_seq_inv cap pol hcap sched).account
+  rwa [absV_delivered, absV_dropped, absV_discarded, absV_q, absV_next] at this
+
+/-- **every arrival consumes exactly one number**: the counter equals the number of completed `_receive_signal` calls,
+plus one while a deliverer is past `self._receiver_seqnr += 1` in its critical section -/
+theorem conc_one_number_per_arrival (cap : Nat) (pol : Policy) (hcap : 1 ≤ cap) (sched : List Act) :
+    (reach cap pol sched).g.r.next =
+      (reach cap pol sched).doneRecv + (if consumedH (holdOf (reach cap pol sched)) then 1 else 0) :=
+  (FInv_reachable cap pol hcap sched).n
+
+/-- with the lock free: numbers consumed = arrivals completed = handed out + dropped + discarded + still queued -/
+theorem conc_arrivals_accounted (cap : Nat) (pol : Policy) (hcap : 1 ≤ cap) (sched : List Act)
+    (hfree : (reach cap pol sched).lock = none) :
+    let s := reach cap pol sched
+    s.g.r.next = s.doneRecv ∧
+      s.doneRecv = s.g.delivered.length + s.g.dropped.length + s.g.discarded.length + s.g.r.q.length := by
+  have h1 := conc_one_number_per_arrival cap pol hcap sched
+  have h2 := (conc_accounting cap pol hcap sched).length_eq
+  simp only [holdOf, hfree, Option.map_none, consumedH, midH] at h1 h2
+  simp only [List.length_append, List.length_map, List.length_range] at h2
+  simp at h1 h2
+  exact ⟨h1, by omega⟩
+
+/-- **each gap equals the number of signals lost**: between two numbers `a`, `b` handed out consecutively there are
+exactly `b - a - 1` numbers, every one of them dropped by the policy or discarded, each once -/
+theorem conc_gap_count (cap : Nat) (pol : Policy) (hcap : 1 ≤ cap) (sched : List Act) (pre post : List Nat) (a b : Nat)
+    (hd : (reach cap pol sched).g.delivered = pre ++ a :: b :: post) :
+    (((reach cap pol sched).g.dropped ++ (reach cap pol sched).g.discarded).filter
+        (fun n => decide (a < n) && decide (n < b))).length = b - a - 1 := by
+  have e := (FInv_reachable cap pol hcap sched).c.lin.abs_eq
+  have hd' : (grun (ginit cap pol) (reach cap pol sched).lin).delivered = pre ++ a :: b :: post := by
+    rw [← e, absV_delivered]; exact hd
+  have := gap_count cap pol hcap (reach cap pol sched).lin pre post a b hd'
+  rwa [← e, absV_dropped, absV_discarded] at this
+
+/-! ## Asking for the next signal -/
+
+/-- **a get that finds a signal queued returns it at once, whatever the thread kind, the stop flag and the timeout**:
+from the moment reader `i` holds the lock with `x` the oldest queued signal, its next two statements end the call with
+`x` — whatever other threads, stop requests (`Act.stop i` included), timer expiries and wake-ups happen in between -/
+theorem get_nonempty_returns_head (cap : Nat) (pol : Policy) (hcap : 1 ≤ cap) (sched : List Act) (i : Nat)
+    (task : Bool) (tmo : Tmo) (x : Sig) (rest : List Sig)
+    (h : HeldBy (reach cap pol sched) i (.get task tmo) 1 none (x :: rest))
+    (as1 as2 : List Act) (h1 : NoStep i as1) (h2 : NoStep i as2) :
+    let s' := crun P0 (reach cap pol sched) (as1 ++ [.step i] ++ as2 ++ [.step i])
+    (s'.thr i).res = some (.sig x) ∧ (s'.thr i).call = .idle ∧ s'.g.r.q = rest ∧ s'.lock = none := by
+  have hne : Call.get task tmo ≠ .idle := by simp
+  have hF := FInv_reachable cap pol hcap sched
+  -- others move, then `i` tests the queue
+  have hl1 := LInv_crun as1 _ hF.c.lk
+  have hb1 := HeldBy_others hne as1 h1 _ hF.c.lk h
+  generalize hs1 : crun P0 (reach cap pol sched) as1 = s1 at hl1 hb1
+  have hstep1 : HeldBy (cstep P0 s1 (.step i)) i (.get task tmo) 3 none (x :: rest) := by
+    obtain ⟨a1, a2, a3, a4, a5, a6⟩ := hb1
+    simp only [cstep, stepThr_P0 s1 hl1 i, next0, a2, a3, a6]
+    exact ⟨a1, by simp [a2], by simp, by simp [a4], by simp [a5], a6⟩
+  have hl2 := LInv_cstep hl1 (.step i)
+  have hb2 := HeldBy_others hne as2 h2 _ hl2 hstep1
+  have hl3 := LInv_crun as2 _ hl2
+  generalize hs3 : crun P0 (cstep P0 s1 (.step i)) as2 = s3 at hl3 hb2
+  obtain ⟨a1, a2, a3, a4, a5, a6⟩ := hb2
+  have hfin : cstep P0 s3 (.step i) =
+      finish { s3 with g := { setQ s3.g rest with delivered := s3.g.delivered ++ [x.seq] }, lin := s3.lin ++ [.get],
+                       thr := upd s3.thr i { (s3.thr i) with got := (s3.thr i).got ++ [x.seq] } } i (.sig x) := by
+    simp only [cstep, stepThr_P0 s3 hl3 i, next0, a2, a3, a6]
+  intro s'
+  have e : s' = cstep P0 s3 (.step i) := by
+    simp only [s', crun_append, hs1]
+    show cstep P0 (crun P0 (cstep P0 s1 (.step i)) as2) (.step i) = _
+    rw [hs3]
+  rw [e, hfin]
+  exact ⟨by simp [finish_thr_same], by simp [finish_thr_same], by simp [setQ], by simp [unlock, a1]⟩
+
+
+/-- non-vacuity of `get_nonempty_returns_head`: a task reader that was asked to stop, with timeout 0, holding the lock in
+front of a queue with one signal -/
+example : HeldBy (reach 2 .old ([.call 0 (.recv 7)] ++ steps 0 7 ++ [.call 1 (.get true .zero), .stop 1, .step 1])) 1
+    (.get true .zero) 1 none [⟨0, 7⟩] := by
+  constructor <;> decide
+
+/-- how a `get_next_signal` call can end: the four `return` / `raise` statements -/
+theorem get_end_cases (s : St) (hl : LInv s) (i : Nat) (task : Bool) (tmo : Tmo) (hc : (s.thr i).call = .get task tmo)
+    (hidle : ((cstep P0 s (.step i)).thr i).call = .idle) :
+    ((s.thr i).wpc = some (if task then 2 else 1) ∧ (s.thr i).ret = false ∧ cstep P0 s (.step i) = finish s i .timeout) ∨
+    (task = true ∧ (s.thr i).wpc = some 1 ∧ (s.thr i).stop = true ∧ (s.thr i).pc = 2 ∧ cstep P0 s (.step i) = finish s i .taskStop) ∨
+    ((s.thr i).pc = 3 ∧ s.g.r.q = [] ∧ cstep P0 s (.step i) = finish s i .indexErr) ∨
+    (∃ x rest, s.g.r.q = x :: rest ∧ ((cstep P0 s (.step i)).thr i).res = some (.sig x) ∧ (cstep P0 s (.step i)).g.r.q = rest) := by
+  have hs := next0_Step0 s hl i
+  simp only [cstep, stepThr_P0 s hl i] at hidle ⊢
+  generalize next0 s i = s' at hs hidle
+  cases hs
+  case same => rw [hc] at hidle; cases hidle
+  case retFalse task' tmo' hc' hpc hw hp hlk hret =>
+    rw [hc] at hc'; cases hc'; exact Or.inl ⟨hw, hret, rfl⟩
+  case taskStop tmo' hc' hpc hw hp hlk hstop =>
+    rw [hc] at hc'; cases hc'; exact Or.inr (Or.inl ⟨rfl, hw, hstop, hpc, rfl⟩)
+  case popEmpty task' tmo' hc' hpc hlk hw hq => exact Or.inr (Or.inr (Or.inl ⟨hpc, hq, rfl⟩))
+  case pop task' tmo' x rest hc' hpc hlk hw hq =>
+    exact Or.inr (Or.inr (Or.inr ⟨x, rest, hq, by simp [finish_thr_same], by simp [setQ]⟩))
+  all_goals (simp_all [upd_same, finish_thr_same, isGet])
+
+/-- **otherwise it raises a timeout error**: a call ends with QMI_TimeoutException only if the caller gave a finite
+timeout, the call found the queue empty when it first tested it, and the queue is empty at the moment of the `raise` -/
+theorem timeout_only_on_empty_queue (cap : Nat) (pol : Policy) (hcap : 1 ≤ cap) (sched : List Act) (i : Nat)
+    (task : Bool) (tmo : Tmo) (hc : ((reach cap pol sched).thr i).call = .get task tmo)
+    (hend : ((cstep P0 (reach cap pol sched) (.step i)).thr i).call = .idle)
+    (hres : ((cstep P0 (reach cap pol sched) (.step i)).thr i).res = some .timeout) :
+    (reach cap pol sched).g.r.q = [] ∧ tmo ≠ .none ∧ ((reach cap pol sched).thr i).sawEmpty = true := by
+  have hF : FInv cap pol (reach cap pol sched) := FInv_reachable cap pol hcap sched
+  generalize reach cap pol sched = s at *
+  have hwg := hF.c.lk.wpc_get i
+  rcases get_end_cases s hF.c.lk i task tmo hc hend with ⟨hw, hr, _⟩ | ⟨_, _, _, _, e⟩ | ⟨_, _, e⟩ | ⟨x, rest, _, e, _⟩
+  · have h1 : 1 ≤ (if task then 2 else 1) := by cases task <;> simp
+    refine ⟨(hF.c.wt i).ret_f _ hw h1 hr, ?_, (hF.c.out i).saw (by simp [hc, isGet]) (hwg _ hw).2.1⟩
+    intro htm; subst htm
+    exact (hF.c.out i).retf_tmo _ hw h1 hr task hc
+  · rw [e] at hres; simp [finish_thr_same] at hres
+  · rw [e] at hres; simp [finish_thr_same] at hres
+  · rw [e] at hres; cases hres
+
+/-- a call ends with QMI_TaskStopException only in a task thread whose stop flag is set, and only if the call found the
+queue empty when it first tested it (the wait helper then gives the stop request priority, see `stop_during_wait_has_priority`) -/
+theorem taskstop_only_after_stop_request_on_empty_queue (cap : Nat) (pol : Policy) (hcap : 1 ≤ cap) (sched : List Act) (i : Nat)
+    (task : Bool) (tmo : Tmo) (hc : ((reach cap pol sched).thr i).call = .get task tmo)
+    (hend : ((cstep P0 (reach cap pol sched) (.step i)).thr i).call = .idle)
+    (hres : ((cstep P0 (reach cap pol sched) (.step i)).thr i).res = some .taskStop) :
+    task = true ∧ ((reach cap pol sched).thr i).stop = true ∧ ((reach cap pol sched).thr i).sawEmpty = true := by
+  have hF : FInv cap pol (reach cap pol sched) := FInv_reachable cap pol hcap sched
+  generalize reach cap pol sched = s at *
+  rcases get_end_cases s hF.c.lk i task tmo hc hend with ⟨_, _, e⟩ | ⟨ht, _, hst, hpc, _⟩ | ⟨_, _, e⟩ | ⟨x, rest, _, e, _⟩
+  · rw [e] at hres; simp [finish_thr_same] at hres
+  · exact ⟨ht, hst, (hF.c.out i).saw (by simp [hc, isGet]) hpc⟩
+  · rw [e] at hres; simp [finish_thr_same] at hres
+  · rw [e] at hres; cases hres
+
+/-- a call that ends with a signal returns the oldest queued one and removes exactly it -/
+theorem returned_signal_is_oldest (cap : Nat) (pol : Policy) (hcap : 1 ≤ cap) (sched : List Act) (i : Nat)
+    (task : Bool) (tmo : Tmo) (x : Sig) (hc : ((reach cap pol sched).thr i).call = .get task tmo)
+    (hend : ((cstep P0 (reach cap pol sched) (.step i)).thr i).call = .idle)
+    (hres : ((cstep P0 (reach cap pol sched) (.step i)).thr i).res = some (.sig x)) :
+    ∃ rest, (reach cap pol sched).g.r.q = x :: rest ∧ (cstep P0 (reach cap pol sched) (.step i)).g.r.q = rest := by
+  have hF : FInv cap pol (reach cap pol sched) := FInv_reachable cap pol hcap sched
+  generalize reach cap pol sched = s at *
+  rcases get_end_cases s hF.c.lk i task tmo hc hend with ⟨_, _, e⟩ | ⟨_, _, _, _, e⟩ | ⟨_, _, e⟩ | ⟨y, rest, hq, e, hq'⟩
+  · rw [e] at hres; simp [finish_thr_same] at hres
+  · rw [e] at hres; simp [finish_thr_same] at hres
+  · rw [e] at hres; simp [finish_thr_same] at hres
+  · rw [e] at hres; cases hres; exact ⟨rest, hq, hq'⟩
+
+/-- `popleft` never meets an empty queue: no call ever ends with `IndexError` -/
+theorem popleft_never_on_empty_queue (cap : Nat) (pol : Policy) (hcap : 1 ≤ cap) (sched : List Act) (i : Nat) :
+    ((reach cap pol sched).thr i).res ≠ some .indexErr :=
+  ((FInv_reachable cap pol hcap sched).c.out i).res_noerr
+
+/-- **no lost wake-up**: whenever the lock is free and a signal is queued, every reader parked in `cond.wait` has been
+notified … -/
+theorem no_lost_wakeup (cap : Nat) (pol : Policy) (hcap : 1 ≤ cap) (sched : List Act) (i : Nat)
+    (hfree : (reach cap pol sched).lock = none) (hp : ((reach cap pol sched).thr i).parked = true)
+    (hq : (reach cap pol sched).g.r.q ≠ []) : ((reach cap pol sched).thr i).notified = true := by
+  have h := ((FInv_reachable cap pol hcap sched).c.wt i).nlw hp
+  cases hn : ((reach cap pol sched).thr i).notified with
+  | true => rfl
+  | false =>
+    rcases h hn with h1 | h1
+    · exact absurd h1 hq
+    · simp [holdOf, hfree, at5] at h1
+
+/-- … and is therefore runnable: its next step re-acquires the lock and leaves `cond.wait` -/
+theorem parked_reader_wakes (cap : Nat) (pol : Policy) (hcap : 1 ≤ cap) (sched : List Act) (i : Nat)
+    (hfree : (reach cap pol sched).lock = none) (hp : ((reach cap pol sched).thr i).parked = true)
+    (hq : (reach cap pol sched).g.r.q ≠ []) :
+    (cstep P0 (reach cap pol sched) (.step i)).lock = some i ∧ ((cstep P0 (reach cap pol sched) (.step i)).thr i).parked = false ∧
+      (cstep P0 (reach cap pol sched) (.step i)).g.r.q = (reach cap pol sched).g.r.q := by
+  have hn := no_lost_wakeup cap pol hcap sched i hfree hp hq
+  have hF : FInv cap pol (reach cap pol sched) := FInv_reachable cap pol hcap sched
+  generalize reach cap pol sched = s at *
+  have hw := hF.c.lk.parked_w i hp
+  obtain ⟨hg, hpc, _⟩ := hF.c.lk.wpc_get i 0 hw
+  cases hc : (s.thr i).call with
+  | get task tmo =>
+    simp only [cstep, stepThr_P0 s hF.c.lk i, next0, hc, hpc, hw, hp, hn, hfree]
+    simp
+  | _ => simp [hc, isGet] at hg
+
+/-- a plain-thread reader that has left `cond.wait` with a signal queued returns the oldest signal with its next three
+statements, whatever happens in between -/
+theorem woken_plain_reader_returns_head (cap : Nat) (pol : Policy) (hcap : 1 ≤ cap) (sched : List Act) (i : Nat)
+    (tmo : Tmo) (x : Sig) (rest : List Sig)
+    (h : HeldBy (reach cap pol sched) i (.get false tmo) 2 (some 0) (x :: rest))
+    (as1 as2 as3 : List Act) (h1 : NoStep i as1) (h2 : NoStep i as2) (h3 : NoStep i as3) :
+    let s' := crun P0 (reach cap pol sched) (as1 ++ [.step i] ++ as2 ++ [.step i] ++ as3 ++ [.step i])
+    (s'.thr i).res = some (.sig x) ∧ (s'.thr i).call = .idle ∧ s'.g.r.q = rest := by
+  have hne : Call.get false tmo ≠ .idle := by simp
+  have hF := FInv_reachable cap pol hcap sched
+  have hl1 := LInv_crun as1 _ hF.c.lk
+  have hb1 := HeldBy_others hne as1 h1 _ hF.c.lk h
+  have hC1' := CInv_crun as1 _ hF.c
+  generalize hs1 : crun P0 (reach cap pol sched) as1 = s1 at hl1 hb1 hC1'
+  have hC1 : CInv cap pol s1 := hC1'
+  have hst1 : HeldBy (cstep P0 s1 (.step i)) i (.get false tmo) 2 (some 1) (x :: rest) := by
+    obtain ⟨a1, a2, a3, a4, a5, a6⟩ := hb1
+    simp only [cstep, stepThr_P0 s1 hl1 i, next0, a2, a3, a4, a5, a6]
+    simp
+    exact ⟨a1, by simp [a2], by simp [a3], by simp, by simp [a5], a6⟩
+  have hC2 := CInv_cstep hC1 (.step i)
+  have hb2 := HeldBy_others hne as2 h2 _ hC2.lk hst1
+  have hC3 := CInv_crun as2 _ hC2
+  generalize hs3 : crun P0 (cstep P0 s1 (.step i)) as2 = s3 at hb2 hC3
+  have hret : (s3.thr i).ret = true := by
+    cases hr : (s3.thr i).ret with
+    | true => rfl
+    | false => have := (hC3.wt i).ret_f 1 hb2.wpc (by omega) hr; rw [hb2.q] at this; cases this
+  have hst3 : HeldBy (cstep P0 s3 (.step i)) i (.get false tmo) 3 none (x :: rest) := by
+    obtain ⟨a1, a2, a3, a4, a5, a6⟩ := hb2
+    simp only [cstep, stepThr_P0 s3 hC3.lk i, next0, a2, a3, a4, hret]
+    simp
+    exact ⟨a1, by simp [a2], by simp, by simp, by simp [a5], a6⟩
+  have hC4 := CInv_cstep hC3 (.step i)
+  have hb4 := HeldBy_others hne as3 h3 _ hC4.lk hst3
+  have hC5 := CInv_crun as3 _ hC4
+  generalize hs5 : crun P0 (cstep P0 s3 (.step i)) as3 = s5 at hb4 hC5
+  obtain ⟨a1, a2, a3, a4, a5, a6⟩ := hb4
+  have hfin : cstep P0 s5 (.step i) =
+      finish { s5 with g := { setQ s5.g rest with delivered := s5.g.delivered ++ [x.seq] }, lin := s5.lin ++ [.get],
+                       thr := upd s5.thr i { (s5.thr i) with got := (s5.thr i).got ++ [x.seq] } } i (.sig x) := by
+    simp only [cstep, stepThr_P0 s5 hC5.lk i, next0, a2, a3, a6]
+  intro s'
+  have e : s' = cstep P0 s5 (.step i) := by
+    simp only [s', crun_append, hs1]
+    show cstep P0 (crun P0 (cstep P0 (crun P0 (cstep P0 s1 (.step i)) as2) (.step i)) as3) (.step i) = _
+    rw [hs3, hs5]
+  rw [e, hfin]
+  exact ⟨by simp [finish_thr_same], by simp [finish_thr_same], by simp [setQ]⟩
+
+/-! ## Non-vacuity and why the obligations matter -/
+
+/-- a reader (plain thread, timeout `None`) parks on the empty queue, a deliverer queues a signal and notifies, the reader
+wakes: the hypotheses of `no_lost_wakeup` / `parked_reader_wakes` / `woken_plain_reader_returns_head` are reachable -/
+def wakeSched : List Act := [.call 2 (.get false .none)] ++ steps 2 4 ++ [.call 0 (.recv 7)] ++ steps 0 7
+
+example : (reach 4 .old wakeSched).lock = none ∧ ((reach 4 .old wakeSched).thr 2).parked = true ∧
+    (reach 4 .old wakeSched).g.r.q = [⟨0, 7⟩] ∧ ((reach 4 .old wakeSched).thr 2).notified = true := by decide
+
+example : HeldBy (reach 4 .old (wakeSched ++ [.step 2])) 2 (.get false .none) 2 (some 0) [⟨0, 7⟩] := by
+  constructor <;> decide
+
+/-- three deliverers interleaved statement by statement overrun a queue of length 1 (DISCARD_OLD) while a reader with a
+finite timeout waits: numbers 0, 1, 2 consumed, the reader is handed one of them, the rest is dropped or queued -/
+example :
+    let s := reach 1 .old ([.call 3 (.get false .pos)] ++ steps 3 4 ++
+      [.call 0 (.recv 7), .call 1 (.recv 8), .call 2 (.recv 9)] ++ (List.range 60).map (fun k => .step (k % 3)) ++ steps 3 4)
+    s.g.r.next = 3 ∧ s.doneRecv = 3 ∧ (s.thr 3).got = [2] ∧ s.g.dropped = [0, 1] ∧ s.g.r.q = [] := by decide +kernel
+
+/-- why `gen_seq_assigned_under_lock` matters (a constant, not the source): with the number taken before the `with`
+block two deliverers can leave the queue as [1, 0] -/
+def unlockedSeqProgs : Progs := { P0 with recv := [.takeSeq, .acquire, .dropIfFullNew, .append, .notifyAll, .release] }
+
+theorem unlocked_seq_breaks_order :
+    (crun unlockedSeqProgs (St.init 4 .old)
+      ([.call 0 (.recv 7), .call 1 (.recv 8), .step 0] ++ steps 1 6 ++ steps 0 5)).g.r.q.map Sig.seq = [1, 0] := by decide
+
+/-- why `gen_get_checks_queue_first` matters (a constant, not the source): without the test before the wait helper a task
+that was asked to stop gets QMI_TaskStopException although a signal is queued -/
+def noPrecheckProgs : Progs := { P0 with get := [.acquire, .wait, .pop, .release] }
+
+theorem no_precheck_stop_hides_queued_signal :
+    ((crun noPrecheckProgs (St.init 4 .old)
+        ([.call 0 (.recv 7)] ++ steps 0 7 ++ [.call 2 (.get true .zero), .stop 2] ++ steps 2 4)).thr 2).res = some .taskStop ∧
+    (crun noPrecheckProgs (St.init 4 .old)
+        ([.call 0 (.recv 7)] ++ steps 0 7 ++ [.call 2 (.get true .zero), .stop 2] ++ steps 2 4)).g.r.q.map Sig.seq = [0] := by
+  decide
+
+/-- the code as it is (`gen_wait_helpers`): a task reader sleeps on the empty queue, a signal is queued, then the stop
+request arrives before the reader runs again — the helper gives the stop request priority, the call ends with
+QMI_TaskStopException and the signal stays queued (accepted: see `taskstop_only_after_stop_request_on_empty_queue`) -/
+theorem stop_during_wait_has_priority :
+    ((reach 4 .old ([.call 2 (.get true .none)] ++ steps 2 4 ++ [.call 0 (.recv 7)] ++ steps 0 7 ++ [.stop 2] ++ steps 2 3)).thr 2).res
+      = some .taskStop ∧
+    (reach 4 .old ([.call 2 (.get true .none)] ++ steps 2 4 ++ [.call 0 (.recv 7)] ++ steps 0 7 ++ [.stop 2] ++ steps 2 3)).g.r.q.map Sig.seq
+      = [0] := by decide
 
 end QmiModel.RecvConc
